@@ -14,7 +14,7 @@
    It HOLDS on a decidable fragment of sessions (C20_agree_partial).
    Only theorem statements here; every proof is [exact] of a lemma in proofs/C20Proofs.v. *)
 From Coq Require Import ZArith NArith List Bool.
-From SL Require Import LoopSem LoopProg GLibSem GLibFrag drv.Drv_loop proofs.C20Proofs proofs.C20Sim.
+From SL Require Import PyInt LoopSem LoopProg ScreenSem GLibSem GLibFrag GLibApp drv.Drv_loop proofs.C20Proofs proofs.C20Sim.
 Import ListNotations.
 
 (* the universally quantified statement of C20, on the handler/mark sequence alone, does not hold *)
@@ -76,24 +76,56 @@ Qed.
    where the two loops are known to part: one signal pending per level at a time, its class has a handler when it is
    enqueued, no handler ends with an ordinary exception, ExitMainLoop only with no nested loop open, close_loop only
    inside a nested loop with nothing left to drain and once per dispatch, no execute_new_loop after a close_loop in
-   the same dispatch, no force_quit / process_signals / submissions from other threads.
+   the same dispatch, no force_quit / process_signals; a submission from another thread arrives when the loop is
+   idle, into an empty queue, for a handled class.
    For every handler code over every user state, every fuel and every list of top-level calls in the fragment, the
    GLibEventLoop model (given enough fuel, and any larger amount) ends every top-level call with the same outcome and
-   produces the same EHandler/EMark sequence up to the quit.  Proved by a simulation relation between lstate (queues)
+   produces the same user-visible sequence [vseq] (EHandler, EMark, EUser) up to the quit.  Proved by a simulation relation between lstate (queues)
    and gstate (contexts), proofs/C20Sim.v. *)
 Theorem C20_agree_partial : forall U (code : nat -> signal -> nat -> prog U) fuel acts u,
   in_fragment code fuel acts u = true ->
   exists fuel', forall fuel'', fuel' <= fuel'' ->
     fst (grun_session false code fuel'' acts (ginit_state u)) = fst (run_session code fuel acts (init_state u)) /\
-    hseq (gtrace (snd (grun_session false code fuel'' acts (ginit_state u)))) =
-    hseq (trace (snd (run_session code fuel acts (init_state u)))).
+    vseq (gtrace (snd (grun_session false code fuel'' acts (ginit_state u)))) =
+    vseq (trace (snd (run_session code fuel acts (init_state u)))).
 Proof. exact (@agree_partial_gen). Qed.
+
+(* [vseq] = EHandler, EMark and EUser events (everything the layers above the loop show: screens set up / refreshed /
+   shown, prompts, input lines delivered to screens, screens closed, modal returns) up to the quit; the sequences of
+   handler invocations alone ([hseq]) and of user-level events alone ([useq]) are projections of it *)
+Theorem C20_vseq_projections : forall t, hseq t = filter is_hm (vseq t) /\ useq t = filter is_user (vseq t).
+Proof. exact (fun t => conj (hseq_vseq t) (useq_vseq t)). Qed.
+
+(* APPLICATIONS: for every table of screens (what their callbacks do), typed lines, quit dialog, configuration, fuel and
+   application actions whose run on the MainLoop model stays in the fragment ([in_app_fragment], GLibApp.v: the
+   checked run of App.initialize + the session), the same application on the GLibEventLoop model ends every top-level
+   call in the same way and shows the same screens in the same order, delivers the same input lines to the same screens
+   and invokes the same handlers in the same order, up to the quit.  Typed input is inside the fragment: the reader
+   thread's submission arrives when the loop is idle (the timing the models have). *)
+Theorem C20_applications_agree_partial : forall specs specl typed quit run_empty fuel acts,
+  in_app_fragment specs specl typed quit run_empty fuel acts = true ->
+  exists fuel', forall fuel'', fuel' <= fuel'' ->
+    fst (gapp_run_all specs specl typed quit run_empty fuel'' acts) = fst (app_run_all specs specl typed quit run_empty fuel acts) /\
+    vseq (gtrace (snd (gapp_run_all specs specl typed quit run_empty fuel'' acts))) =
+    vseq (trace (snd (app_run_all specs specl typed quit run_empty fuel acts))).
+Proof. exact applications_agree_partial. Qed.
 
 (* the same for sessions written in the command language of the harness *)
 Theorem C20_agree_partial_sessions : forall bodies acts fuel,
   in_fragment (handler_prog bodies) fuel (map top_of acts) [] = true ->
   exists fuel', forall fuel'', fuel' <= fuel'' -> glib_obs bodies acts fuel'' = main_obs bodies acts fuel.
 Proof. exact agree_partial. Qed.
+
+(* non-vacuity at application level: a session with two screens, a modal push and two typed lines is in the fragment;
+   on both models: screen 1 (modal) shown, "1" delivered to it, it is closed, push_screen_modal returns, screen 0 shown,
+   "3" delivered to it, it is closed, the application quits normally *)
+Example C20_application_in_fragment :
+  in_app_fragment ex_specs ex_specl ex_typed None false 300 ex_acts = true /\
+  (let '(os, st) := app_run_all ex_specs ex_specl ex_typed None false 300 ex_acts in (os, key_events (trace st)))
+    = ([ONormal; ONormal], ex_expected) /\
+  (let '(os, st) := gapp_run_all ex_specs ex_specl ex_typed None false 600 ex_acts in (os, key_events (gtrace st)))
+    = ([ONormal; ONormal], ex_expected).
+Proof. exact example_application. Qed.
 
 (* [fexec], the checked interpreter behind [in_fragment], only adds checks: where it answers, it answers as [exec] *)
 Theorem C20_fragment_is_mainloop : forall U (code : nat -> signal -> nat -> prog U) f c s o s',
@@ -139,5 +171,7 @@ Print Assumptions C20_refuted_close_no_drain.
 Print Assumptions C20_refuted_mark_after_handlers.
 Print Assumptions C20_refuted_more.
 Print Assumptions C20_agree_partial.
+Print Assumptions C20_vseq_projections.
+Print Assumptions C20_applications_agree_partial.
 Print Assumptions C20_agree_partial_sessions.
 Print Assumptions C20_fragment_is_mainloop.
